@@ -1,5 +1,6 @@
 import GixModel.Lemmas.C08Caches
 import GixModel.Lemmas.C08Vec
+import GixModel.Lemmas.C08Lru
 /-
 C08 — Objects read from packs are exact, whatever caches are used.  PROPERTY THEOREMS ONLY.
 
@@ -111,6 +112,33 @@ theorem mem_used_inv (size memLimit : Nat) (ops : List (Nat × Option Val)) :
         obtain ⟨s', h3, h4⟩ := ih (s.get op.1).2 h2.2
         exact ⟨s', by simp only [List.foldl_cons, Option.bind_some, hv]; exact h3, h4⟩
   exact gen ops _ (StaticLRU.new_inv (fun _ _ => True) size memLimit).2
+
+/-- `StaticLinkedList` EVICTS THE LEAST RECENTLY USED ENTRY. Run the model from a fresh cache of ANY size and
+memory limit over ANY sequence of puts and gets with a ghost clock (`Ghost`, Lemmas/C08Lru.lean: every entry
+carries the time of its last use — its insertion by `put` or its last hit by `get`; the state component is
+stepped by the real `StaticLRU.put` / `get`). Then: the stamped run exists and its state IS the state of the
+real run; the stamped list is the real list of entries; the time stamps strictly decrease from the front to the
+back of the list (the list is in recency order); and any entry a further `put` removes is — unless that `put`
+had to empty the whole cache to make room for an object (`putKind = store true`) — the last entry of a full
+list, and no entry in the cache was used earlier than it. -/
+theorem static_evicts_least_recently_used (size memLimit : Nat) (ops : List (Nat × Option Val)) :
+    ∃ g, (Ghost.new size memLimit).run ops = some g ∧
+      ops.foldl (fun (acc : Option StaticLRU) op => acc.bind fun s => s.step op) (some (StaticLRU.new size memLimit)) = some g.s ∧
+      g.tes.map Prod.fst = g.s.entries ∧
+      g.tes.Pairwise (fun a b => b.2 < a.2) ∧
+      ∀ key v g', g.put key v = some g' → ∀ x ∈ g.tes, x ∉ g'.tes →
+        g.s.putKind v = .store true ∨
+        (g.s.size ≤ g.tes.length ∧ g.tes.getLast? = some x ∧ ∀ y ∈ g.tes, x.2 ≤ y.2) := by
+  obtain ⟨g, hrun⟩ := Ghost.run_total ops (Ghost.new size memLimit) (StaticLRU.new_inv (fun _ _ => True) size memLimit).2
+  obtain ⟨hinv, hreal⟩ := Ghost.run_inv ops _ g (Ghost.new_inv size memLimit) hrun
+  exact ⟨g, hrun, hreal, hinv.1, hinv.2.1, fun key v g' hp x hx hgone => Ghost.put_evicts_lru g g' key v hinv hp x hx hgone⟩
+
+/-- a concrete instance on the model itself: two slots, put 1, put 2, get 1 (hit), put 3 — the entry evicted is
+2 (the least recently USED), not 1 (the least recently inserted) -/
+theorem static_lru_instance :
+    (((((StaticLRU.new 2 0).put 1 ⟨.blob, [1], 0⟩).bind fun s => s.put 2 ⟨.blob, [2], 0⟩).map fun s => (s.get 1).2).bind
+      fun s => s.put 3 ⟨.blob, [3], 0⟩).map (fun s => s.entries.map SEntry.key) = some [3, 1] := by
+  decide +kernel
 
 /-! ### end to end, per cache -/
 
